@@ -33,7 +33,7 @@ CFG = {
         "A case is non-trivial when it lies inside the property's quantifier, so that case_holds is not vacuous: node bits 8/9/10, "
         "epoch >= 2000-01-01 (+08), id >= 0; for cn additionally local year <= 9999; for range/between begin <= end and both second-truncated "
         "offsets from the epoch are values of the timestamp field (0 <= off < 2^(63-shift)); the monitor reads the range clause literally: "
-        "ids stamped bs..es inside, ids stamped before bs or from es+1000 on outside, ids stamped es+1..es+999 left open. distinct = distinct Coq terms. Two further classes treat the codec as the pure functions the property specifies (same case constructors, so the same accept/holds): held = a whole batch of ids is rendered with CnStyle first, the strings are kept, and only afterwards each kept string is read again (its bytes as they read AFTER the batch go into the case) and decoded with FromChStyle; par = 8 goroutines behind a spin barrier each convert their own ids (own seconds, runs of 1..8 ids per second, 150000 iterations each in the quick tier) through CnStyle/FromChStyle/IDFields/IDParse/IDParseEx; the first observation per id and every observation that differs from it are emitted (totals in harness_meta.parallel). A differing value is a violation under every schedule because the functions are specified as pure; nothing is inferred from timing. Deterministic calendar members of every run (class calendar-corpus, ~790 ids + fields for a third of them): Feb 28 / Feb 29 / Mar 1 of 2000, 2004, 2100, 2400, Dec 31 / Jan 1 and every month end of those years, each with 23:59:59.999 and 00:00:00.000 in Asia/Shanghai, under the epochs 2000-01-01, 2000-02-01, 2000-02-28, the default and later ones that put the instant inside the timestamp width, rotating through the six layouts. Configurations: the default, year-2000 and special epochs always and the random ones half of the time (24 of 30 in the quick tier) are set through the PUBLIC API Setup(UseEpoch(t), UseNodeMode(m), NodeAtLowest()) - the hook only puts the three globals into a start state (package defaults, or an earlier configuration: Setup is cumulative); the case then carries (start, option list) and the configuration of EVERY class is the Coq term `setup_from start options`, so the behaviour Setup really produced is compared with the model of Setup (decoy options that a later one overrides, values that are no node mode, sub-millisecond epoch instants). setup = the configuration read back through behaviour (IDParse 0, IDFields -1, IDFields 1) incl. option values outside the quantifier (epoch 1970, before 1970, 1900; node modes 0..255)."),
+        "ids stamped bs..es inside, ids stamped before bs or from es+1000 on outside, ids stamped es+1..es+999 left open. distinct = distinct Coq terms. Two further classes treat the codec as the pure functions the property specifies (same case constructors, so the same accept/holds): held = a whole batch of ids is rendered with CnStyle first, the strings are kept, and only afterwards each kept string is read again (its bytes as they read AFTER the batch go into the case) and decoded with FromChStyle; par = 8 goroutines behind a spin barrier each convert their own ids (own seconds, runs of 1..8 ids per second, 150000 iterations each in the quick tier) through CnStyle/FromChStyle/IDFields/IDParse/IDParseEx; the first observation per id and every observation that differs from it are emitted (totals in harness_meta.parallel). A differing value is a violation under every schedule because the functions are specified as pure; nothing is inferred from timing. The range classes read TimeIDRange/TimeBetweenID as functions of the INSTANT (the quantifier says 'all begin <= end instants'; the Shanghai zone is named only for the date-string form): the endpoints are handed over as time.Time values in several Locations (Local, UTC, Asia/Shanghai, America/New_York, Europe/Berlin, Australia/Lord_Howe, America/St_Johns, Asia/Kathmandu; embedded time/tzdata), and classes dst-fold / dst-gap put endpoints inside both passes of the repeated hour of a fall-back and next to the skipped hour of a spring-forward (transitions found on Go's zone data by bisection); the case still carries only the instant in ns, the Location is in the description and the replay argument. Deterministic calendar members of every run (class calendar-corpus, ~790 ids + fields for a third of them): Feb 28 / Feb 29 / Mar 1 of 2000, 2004, 2100, 2400, Dec 31 / Jan 1 and every month end of those years, each with 23:59:59.999 and 00:00:00.000 in Asia/Shanghai, under the epochs 2000-01-01, 2000-02-01, 2000-02-28, the default and later ones that put the instant inside the timestamp width, rotating through the six layouts. Configurations: the default, year-2000 and special epochs always and the random ones half of the time (24 of 30 in the quick tier) are set through the PUBLIC API Setup(UseEpoch(t), UseNodeMode(m), NodeAtLowest()) - the hook only puts the three globals into a start state (package defaults, or an earlier configuration: Setup is cumulative); the case then carries (start, option list) and the configuration of EVERY class is the Coq term `setup_from start options`, so the behaviour Setup really produced is compared with the model of Setup (decoy options that a later one overrides, values that are no node mode, sub-millisecond epoch instants). setup = the configuration read back through behaviour (IDParse 0, IDFields -1, IDFields 1) incl. option values outside the quantifier (epoch 1970, before 1970, 1900; node modes 0..255)."),
     "trusted": [
         "snowflake.VerifSetConfig hook (sets _epoch/_nodeBits/_nodeAtLowest: the whole configuration for the hook-configured cases, only the start state and the restore for the Setup-configured ones)",
         "zone data of Asia/Shanghai: constant offset +8 h after 1991-09-15 (assumption of the model, sampled on every run)",
@@ -42,7 +42,7 @@ CFG = {
     "assumptions": [
         "timeLoc (Asia/Shanghai) has the constant offset +8 h for every instant from 1991-09-16 on (checked against Go's tzdata by the CZone cases of every run)",
         "the layout is one Setup can configure: node bits 8, 9 or 10 (VerifSetConfig could set others; they are outside the property)",
-        "an instant handed to TimeIDRange/TimeBetweenID is a time.Time whose Unix() is the floor of the instant to the second",
+        "an instant handed to TimeIDRange/TimeBetweenID is a time.Time whose Unix() is the floor of the instant to the second, whatever Location it carries (the range functions are functions of the instant)",
     ],
     "lint": [],
 }
